@@ -170,6 +170,11 @@ let () =
            | "depth" -> string_of_int (int_of_nat (depth !cur))
            | "minimal" -> str_nats (minimal_ids !cur)
            | "find" -> (match find_node !cur (space_of_string (a 1)) with None -> "none" | Some i -> string_of_int (int_of_nat i))
+           | "block" ->
+               (* block MAA OPTSRC SIZE TAPE(bits) *)
+               let tape = if a 4 = "-" then [] else List.init (String.length (a 4)) (fun i -> (a 4).[i] = '1') in
+               let (d1, r) = expand_block !fuel !net !cfg !cur (a 1 = "1") (a 2 = "1") (opt_nat (a 3)) tape in
+               cur := d1; "result=" ^ str_result r ^ " " ^ dump d1
            | "op" ->
                let o = match a 1 with
                  | "expand" -> OExpandNode (nat_of_int (int_of_string (a 2)))
